@@ -1278,3 +1278,84 @@ theorem loop_unclosed_count (tbl : EnvTable) (isB isE : TagName → Bool) (b : T
 
 
 end LiquidVerif.TagAudit
+
+namespace LiquidVerif.TagAudit
+
+/-! ## Tie of the hand-written grammar to the parse methods' source
+
+`Gen/C21Tables.lean` lists, per registered tag, the tag names its `parse` code looks for in the
+token stream (extracted from the source: `parse_block`/`eat_block` end tuples, `expect`, `is_tag`,
+comparisons of `stream.current.value`).  The grammar model must use exactly these names. -/
+
+/-- the names a frame family of the grammar model reacts to: its end tag, its inner tags, and for a
+`doc`-style skip its own name (nesting is an error) -/
+def Frame.parserNames (f : Frame) : List TagName :=
+  f.endT :: (f.familyInners ++ (match f with | .skip n _ true => [n] | _ => []))
+
+def sameSet (a b : List TagName) : Bool := a.all (fun x => b.contains x) && b.all (fun x => a.contains x)
+
+/-- every registered tag: the names extracted from its parse code are exactly the names the grammar
+model gives its frames (block tags), or at most its own name (inline tags) -/
+def parserAgrees (tbl : EnvTable) (pn : List (TagName × List TagName)) : Bool :=
+  tbl.tags.all fun i =>
+    match pn.find? (fun p => p.1 == i.key) with
+    | none => false
+    | some (_, ns) =>
+      match dispatch i with
+      | .openF f => sameSet ns f.parserNames
+      | .inline | .bad => ns.all (fun x => x == i.key)
+
+end LiquidVerif.TagAudit
+
+namespace LiquidVerif.TagAudit
+
+/-! ## Caller-supplied inner-tag maps (`inner_tags=`) -/
+
+theorem pstep_inner_irrel (tbl : EnvTable) (m : List (TagName × List TagName)) (o : Opts)
+    (st : List Frame) (t : TagName) : pstep { tbl with inner := m } o st t = pstep tbl o st t := rfl
+
+theorem prun_inner_irrel (tbl : EnvTable) (m : List (TagName × List TagName)) (o : Opts) :
+    ∀ (ts : List TagName) (st : List Frame), prun { tbl with inner := m } o st ts = prun tbl o st ts := by
+  intro ts
+  induction ts with
+  | nil => intro st; rfl
+  | cons t ts ih =>
+    intro st
+    simp only [prun, pstep_inner_irrel]
+    split
+    · rfl
+    · exact ih _
+
+/-- the parser does not look at the inner-tag map -/
+theorem parses_withInner (tbl : EnvTable) (m : List (TagName × List TagName)) (o : Opts) (toks : List TagName) :
+    parses (withInner tbl m) o toks = parses tbl o toks := by
+  unfold withInner
+  split
+  · rfl
+  · unfold parses; rw [prun_inner_irrel]
+
+/-- a map that allows at least what `tbl`'s map allows keeps the table consistent with the grammar -/
+theorem consistent_of_inner_superset (tbl : EnvTable) (m : List (TagName × List TagName))
+    (hsup : ∀ t b, (enclosing tbl t).contains b = true → (enclosing { tbl with inner := m } t).contains b = true)
+    (hc : consistent tbl = true) : consistent { tbl with inner := m } = true := by
+  have hgood : ∀ f, goodFrame tbl f = true → goodFrame { tbl with inner := m } f = true := by
+    intro f hg
+    simp only [goodFrame, Bool.and_eq_true, List.all_eq_true] at hg ⊢
+    exact ⟨hg.1, fun t ht => hsup t _ (hg.2 t ht)⟩
+  simp only [consistent, Bool.and_eq_true, List.all_eq_true] at hc ⊢
+  refine ⟨⟨fun i hi => ?_, hc.1.2⟩, hc.2⟩
+  have hok := hc.1.1 i hi
+  unfold infoOK at hok ⊢
+  split
+  · rename_i f hd
+    simp only [hd, Bool.and_eq_true] at hok ⊢
+    obtain ⟨⟨⟨⟨⟨⟨h1, h2⟩, h3⟩, h4⟩, h5⟩, h6⟩, h7⟩ := hok
+    exact ⟨⟨⟨⟨⟨⟨h1, h2⟩, h3⟩, h4⟩, hgood f h5⟩, h6⟩, h7⟩
+  · rename_i hd
+    simp only [hd, Bool.and_eq_true, Bool.or_eq_true] at hok ⊢
+    obtain ⟨h1, h2⟩ := hok
+    exact ⟨h1, h2.imp id (hsup _ _)⟩
+  · rename_i hd
+    simpa only [hd] using hok
+
+end LiquidVerif.TagAudit
